@@ -460,6 +460,10 @@ class Program:
     def op_cmp(self):
         rng = self.rng
         pool = self.ifaces + self.custom + [implementedBy(c) for c in self.classes]
+        if not hasattr(self, 'spaced'):
+            # a name containing a blank is taken for a docstring: the interface's __name__ is None
+            self.spaced = InterfaceClass('two words', (Interface,), {}, __module__=self.mod)
+        pool = pool + [self.spaced]
         a = rng.choice(pool)
         r = rng.random()
         if r < 0.7:
